@@ -171,6 +171,11 @@ def build_coq(pid, log):
             shutil.copy(os.path.join(COQ, prop_v), tmpv)
             rc, out = sh("timeout 600 coqc -Q %s K -w -notation-overridden %s 2>&1" % (COQ, tmpv), cwd=os.path.dirname(tmpv), shell=True)
         log.write("== Print Assumptions\n" + out + "\n")
+        if rc != 0:
+            # Properties/Cnn.v does not compile against the current .vo files of its dependencies
+            res["proof_ok"] = False
+            res["discharged"] = 0
+            res["broken"].append("Properties/%s.v no longer compiles: %s" % (pid, out[-400:]))
         blocks = re.split(r"\n(?=Closed under|Axioms:)", "\n" + out)
         axioms = set()
         for b in blocks:
